@@ -115,6 +115,35 @@ var specs = map[string]spec{
 		Assumptions: []string{"handler intent follows the net/http ResponseWriter contract: headers are snapshotted at the first WriteHeader/Write/Flush, trailers are declared before and set after the body",
 			"handlers that write a body different from their explicit Content-Length, or a body with 204/304, are not generated"},
 	},
+	"C11": {
+		World: "stream", Level: "exploration", QuickS: 30, ThoroughS: 600,
+		Rule: "cases = a mix of the C09 handler programs (half with transport write failures, biased to 64KiB-crossing writes), the C12 round trips (40% with sender transport failures), the C13 byzantine frame sequences, the C08 corrupted request streams through ServerProcessor/BodyReader and the C15 limit scenarios; the primary oracle is the ownership-tracking allocator installed as mempool.DefaultMemPool (stable pointer, like MemPool) and as BodyAllocator (moving when capacity is exceeded, like AlignedAllocator): Free/Append/AppendString/Realloc on a freed or foreign buffer, second Free, write into a quarantined (poisoned, never recycled) buffer, poison showing up on the wire; non-trivial = at least 3 buffers were returned to the allocators in the run; distinct = fingerprint of the underlying case",
+		Real: []string{"nbhttp.Response / Parser / BodyReader / ServerProcessor, websocket.Conn (transformed real code)"},
+		Stub: []string{"allocators: ownership tracker (the seam is the public mempool.Allocator interface)", "transport: in-memory connections with write-failure injection"},
+		Assumptions: []string{"this check is single-threaded: ownership errors that need a close racing an in-flight handler or the websocket send-queue drainer are only reachable in the e2e world (C10/C14), which installs the same tracker when claimed",
+			"leaks (buffers never returned) are counted as a probe only; the property does not demand their absence"},
+	},
+	"C12": {
+		World: "stream", Level: "exploration", QuickS: 25, ThoroughS: 600,
+		Rule: "cases = two real websocket.Conn endpoints (client role masks, server role does not) joined by the simulated transport; 1-5 text/binary messages with lengths from {0,1,2,124..128,4095..4097,65534..65537,70000,200000} and around multiples of the frame-size limit, random / highly compressible / multi-byte UTF-8 content, interleaved pings and pongs, compression off or on at levels {default,1,5,9,huffman-only}, MaxWebsocketFramePayloadSize in {0,1,2,125,126,1000,4096,65535,65536}; the wire is decoded by an independent frame codec (mask bit by role, minimal lengths, fragments within the limit, RSV1 only on the first frame of a compressed message) and delivered in every single cut (small cases), seeded multi-cuts, or fixed read sizes; 10% of the cases fail the sender's transport; non-trivial = fragmentation or compression or a length-class boundary exercised; distinct = distinct wire bytes",
+		Real: []string{"websocket.Conn (WriteMessage / writeFrame / Parse / nextFrame / compression) - transformed real code, both endpoints", "compress/flate"},
+		Stub: []string{"transport: in-memory connections, segmentation and write failures chosen by the harness", "HTTP upgrade handshake: skipped (endpoints built with NewServerConn / NewClientConn)", "allocators: ownership tracker (moving flavour as BodyAllocator)"},
+		Assumptions: []string{"the handshake is not part of this property; compression is 'negotiated' by constructing both ends with the same setting"},
+	},
+	"C13": {
+		World: "stream", Level: "exploration", QuickS: 25, ThoroughS: 600,
+		Rule: "cases = frame sequences of 1-6 steps for a server or client endpoint: valid data messages (optionally fragmented inside a multi-byte rune, optionally with a control frame in between), pings, pongs, close frames with codes swept over the interesting set plus a random 16-bit code and optional invalid UTF-8 reasons, and spliced-in violations (RSV bits, reserved opcodes, fragmented / over-long control frames, continuation without start, new data frame inside a fragmented message, 64-bit length with top bit, non-minimal lengths, wrong masking), in reads of {1,2,3,7,64,all} bytes; oracle = executable reference validator written from RFC 6455 (sections 5.2, 5.4, 5.5, 7.4, 8.1): messages before the first violation delivered exactly, connection failed at a violation, nothing containing the offending frame delivered, ping -> identical pong, close -> close; where the RFC leaves latitude (non-minimal lengths, close codes 1012-1015 and >= 5000, wrong masking, RSV1 on control frames with deflate) nothing is asserted; non-trivial = a violation is present or a control frame sits inside a fragmented message",
+		Real: []string{"websocket.Conn Parse / nextFrame / validFrame / handleWsMessage (transformed real code)"},
+		Stub: []string{"peer: byzantine frame generator", "transport: in-memory connection", "allocators: ownership tracker"},
+		Assumptions: []string{"'fails the connection' = Parse returns an error (the engine then closes) or the endpoint closes the underlying connection", "invalid UTF-8 may be detected at the end of the message (the RFC allows earlier)"},
+	},
+	"C15": {
+		World: "stream", Level: "exploration", QuickS: 25, ThoroughS: 600,
+		Rule: "cases = MessageLengthLimit L in {1..100000} x ReadLimit in {0,64,1024,65536} x scenario {single frame of L-1/L/L+1/L+2/L+100, fragments in every partition class incl. empty fragments, permessage-deflate frame whose inflated size straddles L or is 2..1000 x L (bomb), control frame of 124..200 bytes received, control frame sent, enormous declared length trickled} x read size; oracle: no delivered message above L, connection failed and close code 1009 sent when L is exceeded, sizes within L accepted, oversize control frames refused on send (nothing written) and receive, bytes live at the tracking allocator for this connection bounded by L + ReadLimit + reads (factor 2 + 12 KiB allocator slack) - which is what catches a bomb rejected only after inflating; non-trivial = size within +-1 of L, or a bomb",
+		Real: []string{"websocket.Conn Parse / nextFrame / readAll / isMessageTooLarge / WriteMessage (transformed real code)", "compress/flate"},
+		Stub: []string{"peer: generated frames", "transport: in-memory connection", "allocators: ownership tracker (measures live bytes)"},
+		Assumptions: []string{"memory is measured by capacity at the allocator seam; decompressor-internal windows (32 KiB) are outside it"},
+	},
 	"C17": {
 		World: "core", Level: "exploration", QuickS: 40, ThoroughS: 900,
 		Rule: "same scenario as C01 with MaxWriteBufferSize M in 1..256KiB and write sizes placed around M and around the kernel capacity; oracle on the true backlog (accepted buffer bytes minus bytes the kernel model took): accepted => held <= M, refused => backlog+n > M, internal counter == true backlog whenever the connection mutex is free; non-trivial = a write landed within +-1 of the bound and a backlog formed",
